@@ -59,7 +59,9 @@ def wl_history(ctx, rng, case):
                     f.add(key, force=force) if rng.random() < 0.5 else (f.add(key, force) if force else f.add(key))
                 else:
                     case.op("add_alt", key, force)
-                    f.add_alt((hf or _default())(key, mk[1] + rng.choice([0, 0, 1, 4])), force)
+                    arg, cp = bl.alt_arg(ctx, (hf or _default())(key, mk[1] + rng.choice([0, 0, 1, 4])))
+                    f.add_alt(arg, force)
+                    bl.arg_unchanged(ctx, arg, cp, "add_alt")
                 calls += 1
                 if eff:
                     if counts[-1] >= est:
